@@ -181,15 +181,76 @@ Proof.
   - rewrite H0. reflexivity.
 Qed.
 
-(** System::Guts::calcTimeOfNextScheduledEventImpl AS WRITTEN, with TWO subsystems: the ids of the first subsystem
-    survive although the second one has a strictly earlier event (the clear() is unreachable).  Witness: the default
+(** System::Guts::calcTimeOfNextScheduledEventImpl as repaired (clear before assign, /repo 748896e4), ANY number of
+    subsystems: the ids selected are exactly the eligible handlers, over all subsystems, whose next time is the earliest
+    eligible one, and that time is returned *)
+Definition sys_inv (sel:subsystem -> list shandler) (t:Q) (incl:bool) (P:list subsystem) (acc:tinf * list nat) : Prop :=
+  let '(tn, ids) := acc in
+  (forall i, In i ids -> exists ss h, In ss P /\ In h (sel ss) /\ h_id h = i /\
+       eligible t incl (h_next h t incl) = true /\ Ieq (h_next h t incl) tn) /\
+  (forall ss h, In ss P -> In h (sel ss) -> eligible t incl (h_next h t incl) = true ->
+      Ile tn (h_next h t incl) /\ (Ieq (h_next h t incl) tn -> In (h_id h) ids)).
+
+Lemma sys_step sel t incl P acc ss : sys_inv sel t incl P acc ->
+  sys_inv sel t incl (P ++ [ss]) (sys_next_step S true sel t incl acc ss).
+Proof.
+  destruct acc as [tn ids]. intros [I1 I2]. unfold sys_next_step.
+  destruct (sub_next S (sel ss) t incl) as [time sids] eqn:Es.
+  destruct (sub_next_spec _ _ _ _ _ Es) as [G1 G2].
+  destruct (ile time tn) eqn:C.
+  - apply ile_iff in C. split.
+    + intros i Hi. apply in_app_iff in Hi. destruct Hi as [Hi|Hi].
+      * destruct (ilt time tn) eqn:L; [destruct Hi|]. apply ilt_false in L.
+        destruct (I1 i Hi) as [s0 [h [A [B [C0 [D E]]]]]]. exists s0, h. repeat split; auto. { apply in_app_iff; auto. }
+        clear -C L E. destruct (h_next h t incl), time, tn; simpl in *; try tauto; lra.
+      * destruct (G1 i Hi) as [h [A [B [C0 D]]]]. exists ss, h. repeat split; auto. apply in_app_iff; right; left; auto.
+    + intros s0 h Hs Hh El. apply in_app_iff in Hs. destruct Hs as [Hs|[<-|[]]].
+      * destruct (I2 s0 h Hs Hh El) as [A B]. split.
+        { clear -A C. destruct (h_next h t incl), time, tn; simpl in *; try tauto; lra. }
+        intros E. apply in_app_iff. left.
+        destruct (ilt time tn) eqn:L.
+        { apply ilt_iff in L. exfalso. clear -A E L. destruct (h_next h t incl), time, tn; simpl in *; try tauto; lra. }
+        apply B. apply ilt_false in L. clear -C L E. destruct (h_next h t incl), time, tn; simpl in *; try tauto; lra.
+      * destruct (G2 h Hh El) as [A B]. split; auto. intros E. apply in_app_iff. right. auto.
+  - apply ile_false in C. split.
+    + intros i Hi. destruct (I1 i Hi) as [s0 [h [A B]]]. exists s0, h. split; auto. apply in_app_iff; auto.
+    + intros s0 h Hs Hh El. apply in_app_iff in Hs. destruct Hs as [Hs|[<-|[]]]; [exact (I2 s0 h Hs Hh El)|].
+      destruct (G2 h Hh El) as [A _]. split.
+      * clear -A C. destruct (h_next h t incl), time, tn; simpl in *; try tauto; lra.
+      * intros E. exfalso. clear -A C E. destruct (h_next h t incl), time, tn; simpl in *; try tauto; lra.
+Qed.
+
+Lemma sys_fold sel t incl : forall subs P acc, sys_inv sel t incl P acc ->
+  sys_inv sel t incl (P ++ subs) (fold_left (sys_next_step S true sel t incl) subs acc).
+Proof.
+  induction subs as [|ss r IH]; intros P acc I; simpl.
+  - rewrite app_nil_r. auto.
+  - replace (P ++ ss :: r) with ((P ++ [ss]) ++ r) by (rewrite <- app_assoc; reflexivity).
+    apply IH. apply sys_step. auto.
+Qed.
+
+Lemma sys_next_spec sel subs t incl tn ids : sys_next S true sel subs t incl = (tn, ids) ->
+  (forall i, In i ids -> exists ss h, In ss subs /\ In h (sel ss) /\ h_id h = i /\
+       eligible t incl (h_next h t incl) = true /\ Ieq (h_next h t incl) tn) /\
+  (forall ss h, In ss subs -> In h (sel ss) -> eligible t incl (h_next h t incl) = true ->
+      Ile tn (h_next h t incl) /\ (Ieq (h_next h t incl) tn -> In (h_id h) ids)).
+Proof.
+  intros E. pose proof (sys_fold sel t incl subs [] (None, [])) as H. simpl in H. unfold sys_next in E. rewrite E in H.
+  apply H. split.
+  - intros i [].
+  - intros ss h [].
+Qed.
+
+(** REGRESSION (defect repaired in /repo 748896e4): the loop as it was written before the repair ([sys_next false]), with
+    TWO subsystems: the ids of the first subsystem survived although the second one has a strictly earlier event (the
+    clear() was unreachable); the repaired loop ([sys_next true]) lists only the handler that is due.  Witness: the default
     subsystem has a handler (id 0) due at t=1/2, a second subsystem an event (id 1) due at t=5/16. *)
 Definition w_h (id:nat) (at_:Q) : shandler :=
   {| h_id := id; h_next := fun t incl => if qlt t at_ || (incl && qeq at_ t) then Some at_ else None;
      h_act := fun s _ => (s, false, false) |}.
 Definition w_subs : list subsystem :=
   [ {| ss_handlers := [w_h 0 (1#2)]; ss_reporters := [] |}; {| ss_handlers := [w_h 1 (5#16)]; ss_reporters := [] |} ].
-Lemma sys_next_two_subsystems_refuted :
+Lemma sys_next_two_subsystems_regression :
   sys_next S false ss_handlers w_subs 0 true = (Some (5#16), [0%nat; 1%nat]) /\
   sys_next S false ss_handlers w_subs (5#16) false = (Some (1#2), [0%nat]) /\
   sys_next S true ss_handlers w_subs 0 true = (Some (5#16), [1%nat]).
@@ -198,7 +259,7 @@ Proof. repeat split; reflexivity. Qed.
     subsystem: default handler due at 5/16 only, second subsystem's event at 1/2, asked at t = 5/16 *)
 Definition w_subs2 : list subsystem :=
   [ {| ss_handlers := [w_h 0 (5#16)]; ss_reporters := [] |}; {| ss_handlers := [w_h 1 (1#2)]; ss_reporters := [] |} ].
-Lemma sys_next_exhausted_handler_refuted :
+Lemma sys_next_exhausted_handler_regression :
   sys_next S false ss_handlers w_subs2 (5#16) false = (Some (1#2), [0%nat; 1%nat]) /\
   sys_next S true ss_handlers w_subs2 (5#16) false = (Some (1#2), [1%nat]).
 Proof. split; reflexivity. Qed.
